@@ -1,7 +1,7 @@
 (* The template scan never faults, terminates with an explicit measure, and
    keeps INV: proofs for lexComment, raw blocks, scanTag, scanAttribute, the
    per-context steps and the main loop. *)
-From Verif Require Import Bytes Utf8 Facts_lexer LexBase LexCodeM LexerM LexBase_proofs LexCode_proofs.
+From Verif Require Import Bytes Utf8 Facts_lexer LexBase LexCodeM LexerM LexBase_proofs LexTile_proofs LexCode_proofs.
 Open Scope N_scope.
 
 Definition nofail (l : lexer) : Prop := False.
@@ -31,6 +31,35 @@ Proof.
   intros Hs Hb Ho [[pre [Ht Hp]] Hout]. split; [exists pre; rewrite Hs, Hb; auto|rewrite Hb, Ho; exact Hout].
 Qed.
 
+(* outside a block of code: the invariant of the text scan *)
+Definition INVS (l : lexer) : Prop := INV text l /\ out_block l.
+Definition progS (l l' : lexer) : Prop := INVS l' /\ (l_base l < l_base l' /\ l_tidx l' <= l_tidx l).
+Lemma same_core_INVS l l' : same_core l l' -> INVS l -> INVS l'.
+Proof. intros Hs [H1 H2]. split; [eapply same_core_INV; eauto|eapply same_core_ob; eauto]. Qed.
+Lemma INVS_len l : INVS l -> l_base l + len l = nlen text.
+Proof. intros [H _]. apply INV_len, H. Qed.
+Lemma emit_at_specS line col cd ld typ n l :
+  INVS l -> n <= len l -> n = 0 \/ is_open typ = false ->
+  exists l', emit_at line col cd ld typ n l = Ok l' /\ INVS l' /\ (l_base l' = l_base l + n /\ l_tidx l' = l_tidx l - n)
+             /\ l_src l' = drop n (l_src l) /\ len l' = len l - n
+             /\ l_line l' = l_line l /\ l_col l' = l_col l /\ l_cdev l' = l_cdev l /\ l_ldev l' = l_ldev l
+             /\ l_ctx l' = l_ctx l /\ l_ctxs l' = l_ctxs l.
+Proof.
+  intros [Hi Hb] Hn Hc. destruct (emit_at_spec text line col cd ld typ n l Hi Hn) as (l' & He & Hi' & R).
+  exists l'. split; [exact He|]. split; [split; [exact Hi'|exact (ob_emit text _ _ _ _ _ _ _ _ Hi Hb He Hc)]|exact R].
+Qed.
+Lemma emitc_inv typ n l l' : emitc typ n l = Ok l' -> exists l0, emit typ n l = Ok l0 /\ same_core l0 l'.
+Proof.
+  unfold emitc. destruct (emit typ n l) as [l0| | |]; simpl; try discriminate.
+  intros H; injection H as <-. exists l0. split; [reflexivity|auto with sc].
+Qed.
+
+Lemma INVS_eq l l' :
+  l_src l' = l_src l -> l_base l' = l_base l -> l_out l' = l_out l -> INVS l -> INVS l'.
+Proof.
+  intros Hs Hb Ho [Hi Hob]. split; [eapply INV_eq; eauto|]. unfold out_block. rewrite Ho. exact Hob.
+Qed.
+
 Lemma closing_len endt l n :
   endt = gen_tokenEOF \/ closing endt l ->
   (endt = gen_tokenRightBraces /\ n = 2) \/ (endt = gen_tokenEndStatement /\ n = 2) \/ (endt = gen_tokenEndStatements /\ n = 3) ->
@@ -43,24 +72,30 @@ Qed.
 
 Lemma lex_delim_safe typ1 n endt typ2 l :
   (endt = gen_tokenRightBraces /\ n = 2) \/ (endt = gen_tokenEndStatement /\ n = 2) \/ (endt = gen_tokenEndStatements /\ n = 3) ->
-  INV text l -> n <= len l ->
-  safe (let* l1 := emitc typ1 n l in let* l2 := lex_code U endt l1 in emitc typ2 n l2) (prog text l) (ext text l).
+  is_open typ1 = true -> is_close typ2 = true ->
+  INVS l -> n <= len l ->
+  safe (let* l1 := emitc typ1 n l in let* l2 := lex_code U endt l1 in emitc typ2 n l2) (progS l) (ext text l).
 Proof.
-  intros Hn Hi Hl. assert (1 <= n) by (destruct Hn as [[_ ->]|[[_ ->]|[_ ->]]]; lia).
-  destruct (emitc_spec text typ1 n l Hi Hl) as (l1 & H1 & Hi1 & Hb1 & _). rewrite H1, bind_ok.
+  intros Hn Hop Hcl [Hi Hob] Hl. assert (Hn1 : 1 <= n) by (destruct Hn as [[_ ->]|[[_ ->]|[_ ->]]]; lia).
+  destruct (emitc_spec text typ1 n l Hi Hl) as (l1 & H1 & Hi1 & Hb1 & _).
+  destruct (emitc_inv _ _ _ _ H1) as (l0 & He0 & Hs0).
+  assert (Hib1 : in_block l1) by (eapply same_core_ib; [exact Hs0|]; apply (ob_open text _ _ _ _ _ _ _ _ Hi Hob He0); [lia|exact Hop]).
+  rewrite H1, bind_ok.
   eapply safe_bind.
-  - eapply safe_mono; [apply lex_code_safe; exact Hi1|intros a Ha; exact Ha|].
-    intros l2 [Hi2 He2]. split; [exact Hi2|lia].
-  - intros l2 [He2 Hc2]. pose proof (closing_len endt l2 n Hc2 Hn) as Hl2.
-    destruct (emitc_spec text typ2 n l2 (proj1 He2) Hl2) as (l3 & H3 & Hi3 & Hb3 & _). rewrite H3. simpl.
-    split; [exact Hi3|]. destruct He2 as [_ He2]. lia.
+  - eapply safe_mono; [apply lex_code_safe; split; [exact Hi1|exact Hib1]|intros a Ha; exact Ha|].
+    intros l2 [[Hi2 _] He2]. split; [exact Hi2|lia].
+  - intros l2 [[[Hi2 Hib2] He2] Hc2]. pose proof (closing_len endt l2 n Hc2 Hn) as Hl2.
+    destruct (emitc_spec text typ2 n l2 Hi2 Hl2) as (l3 & H3 & Hi3 & Hb3 & _).
+    destruct (emitc_inv _ _ _ _ H3) as (l4 & He4 & Hs4).
+    rewrite H3. simpl.
+    split; [split; [exact Hi3|eapply same_core_ob; [exact Hs4|]; apply (ib_close _ _ _ _ _ _ _ _ Hib2 He4); [lia|exact Hcl]]|]. lia.
 Qed.
 
-Lemma lex_show_safe l : INV text l -> 2 <= len l -> safe (lex_show U l) (prog text l) (ext text l).
+Lemma lex_show_safe l : INVS l -> 2 <= len l -> safe (lex_show U l) (progS l) (ext text l).
 Proof. intros. apply lex_delim_safe; auto. Qed.
-Lemma lex_statement_safe l : INV text l -> 2 <= len l -> safe (lex_statement U l) (prog text l) (ext text l).
+Lemma lex_statement_safe l : INVS l -> 2 <= len l -> safe (lex_statement U l) (progS l) (ext text l).
 Proof. intros. apply lex_delim_safe; auto. Qed.
-Lemma lex_statements_safe l : INV text l -> 3 <= len l -> safe (lex_statements U l) (prog text l) (ext text l).
+Lemma lex_statements_safe l : INVS l -> 3 <= len l -> safe (lex_statements U l) (progS l) (ext text l).
 Proof. intros. apply lex_delim_safe; auto. Qed.
 
 (* counting lines and columns over a range of the source *)
@@ -76,9 +111,9 @@ Proof.
 Qed.
 
 (* ---- comments ---- *)
-Lemma lex_comment_safe l : INV text l -> 2 <= len l -> safe (lex_comment l) (prog text l) (ext text l).
+Lemma lex_comment_safe l : INVS l -> 2 <= len l -> safe (lex_comment l) (progS l) (ext text l).
 Proof.
-  intros Hi Hl. assert (He : ext text l l) by (apply ext_refl; exact Hi). unfold lex_comment.
+  intros HiS Hl. pose proof (proj1 HiS) as Hi. assert (He : ext text l l) by (apply ext_refl; exact Hi). unfold lex_comment.
   eapply safe_bind.
   - apply (safe_loop (comment_body l) (fun st => 2 <= snd st /\ snd st <= len l)
              (fun st => N.to_nat (len l - snd st)) (fun st => 2 <= snd st /\ snd st <= len l)) with (E := ext text l).
@@ -99,8 +134,8 @@ Proof.
     assert (Hs3 : same_core l l3).
     { eapply same_core_trans; [apply sc_addcol|]. eapply same_core_trans; [exact Hs2|].
       unfold l3. destruct (_ =? _); auto with sc. }
-    assert (Hi3 : INV text l3) by (eapply same_core_INV; eauto).
-    destruct (emit_at_spec text (l_line l) (l_col l) (l_cdev l) (l_ldev l) gen_tokenComment p l3 Hi3) as (l4 & H4 & Hi4 & Hb4 & _).
+    assert (Hi3 : INVS l3) by (eapply same_core_INVS; eauto).
+    destruct (emit_at_specS (l_line l) (l_col l) (l_cdev l) (l_ldev l) gen_tokenComment p l3 Hi3) as (l4 & H4 & Hi4 & Hb4 & _); [|right; reflexivity|].
     { rewrite (same_core_len _ _ Hs3). exact H2. }
     rewrite H4. simpl. split; [exact Hi4|]. destruct Hs3 as (_ & Hb3 & _). lia.
 Qed.
@@ -312,7 +347,7 @@ Qed.
 
 (* ---- the main loop ---- *)
 Definition MI (st : mst) : Prop :=
-  INV text (m_l st) /\ m_p st <= len (m_l st) /\ l_tidx (m_l st) <= m_p st.
+  INVS (m_l st) /\ m_p st <= len (m_l st) /\ l_tidx (m_l st) <= m_p st.
 (* absolute position of the scan *)
 Definition apos (st : mst) : N := l_base (m_l st) + m_p st.
 Definition is_attr (cx : N) : bool := (cx =? gen_ContextQuotedAttr) || (cx =? gen_ContextUnquotedAttr).
@@ -321,7 +356,7 @@ Definition mu (st : mst) : N :=
   2 * (nlen text - apos st) + (if is_attr (l_ctx (m_l st)) then 1 else 0).
 
 Lemma MI_apos st : MI st -> apos st <= nlen text.
-Proof. intros (Hi & Hp & _). pose proof (INV_len _ _ Hi). unfold apos. lia. Qed.
+Proof. intros (Hi & Hp & _). pose proof (INVS_len _ Hi). unfold apos. lia. Qed.
 
 (* outcome of the context specific part of an iteration *)
 Definition swpost (st : mst) (r : mst * bool) : Prop :=
@@ -333,24 +368,24 @@ Definition swpost (st : mst) (r : mst * bool) : Prop :=
 Lemma MI_same st l' p' :
   MI st -> same_core (m_l st) l' -> m_p st <= p' -> p' <= len l' -> MI (mset_lp l' p' st).
 Proof.
-  intros (Hi & Hp & Ht) Hs H1 H2. unfold MI. cbn. split; [eapply same_core_INV; eauto|].
+  intros (Hi & Hp & Ht) Hs H1 H2. unfold MI. cbn. split; [eapply same_core_INVS; eauto|].
   destruct Hs as (_ & Hb & _). split; lia.
 Qed.
 
 Lemma emit_text_spec st l :
-  INV text l -> m_p st <= len l ->
-  exists l1, emit_text st l = Ok l1 /\ INV text l1 /\ (l_base l1 = l_base l + m_p st /\ l_tidx l1 = l_tidx l - m_p st)
+  INVS l -> m_p st <= len l ->
+  exists l1, emit_text st l = Ok l1 /\ INVS l1 /\ (l_base l1 = l_base l + m_p st /\ l_tidx l1 = l_tidx l - m_p st)
              /\ len l1 = len l - m_p st /\ l_ctx l1 = l_ctx l /\ l_src l1 = drop (m_p st) (l_src l).
 Proof.
   intros Hi Hp. unfold emit_text.
-  destruct (emit_at_spec text (m_lin st) (m_col st) (m_lcd st) (m_lld st) gen_tokenText (m_p st) l Hi Hp)
+  destruct (emit_at_specS (m_lin st) (m_col st) (m_lcd st) (m_lld st) gen_tokenText (m_p st) l Hi Hp (or_intror eq_refl))
     as (l1 & H1 & Hi1 & Hb1 & Hs1 & Hl1 & _ & _ & _ & _ & Hc1 & _).
   exists l1. auto 10.
 Qed.
 
 Lemma flush_text_spec st :
   MI st ->
-  exists l1, flush_text st = Ok l1 /\ INV text l1 /\ (l_base l1 = apos st /\ l_tidx l1 = 0)
+  exists l1, flush_text st = Ok l1 /\ INVS l1 /\ (l_base l1 = apos st /\ l_tidx l1 = 0)
              /\ len l1 = len (m_l st) - m_p st /\ l_ctx l1 = l_ctx (m_l st)
              /\ l_src l1 = drop (m_p st) (l_src (m_l st)).
 Proof.
@@ -361,14 +396,14 @@ Proof.
     replace (m_p st) with 0 by lia. reflexivity.
 Qed.
 
-Lemma MI_resync st0 l : INV text l -> l_tidx l = 0 -> MI (resync l st0).
+Lemma MI_resync st0 l : INVS l -> l_tidx l = 0 -> MI (resync l st0).
 Proof. intros Hi Ht. unfold MI. cbn. split; [exact Hi|lia]. Qed.
 
 Lemma emit0_spec typ l :
-  INV text l -> exists l1, emit typ 0 l = Ok l1 /\ INV text l1 /\ (l_base l1 = l_base l /\ l_tidx l1 = l_tidx l)
+  INVS l -> exists l1, emit typ 0 l = Ok l1 /\ INVS l1 /\ (l_base l1 = l_base l /\ l_tidx l1 = l_tidx l)
                              /\ len l1 = len l /\ l_ctx l1 = l_ctx l /\ l_src l1 = l_src l.
 Proof.
-  intros Hi. destruct (emit_spec text typ 0 l Hi ltac:(lia)) as (l1 & H1 & Hi1 & Hb1 & Hs1 & Hl1 & _ & _ & _ & _ & Hc1 & _).
+  intros Hi. destruct (emit_at_specS (l_line l) (l_col l) (l_cdev l) (l_ldev l) typ 0 l Hi ltac:(lia) (or_introl eq_refl)) as (l1 & H1 & Hi1 & Hb1 & Hs1 & Hl1 & _ & _ & _ & _ & Hc1 & _).
   exists l1. split; [exact H1|]. split; [exact Hi1|]. split; [lia|]. split; [lia|split; [exact Hc1|exact Hs1]].
 Qed.
 
@@ -402,7 +437,7 @@ Proof.
         destruct s0 as [|a0 [|a1 [|a2 [|a3 [|a4 s5]]]]]; try discriminate.
         unfold get. simpl. intros E Hc. injection Hc as ->. repeat (apply andb_prop in E; destruct E as [? E]). discriminate. }
     simpl. split.
-    + unfold MI. cbn. split; [eapply same_core_INV; [|exact Hi2]; auto with sc|].
+    + unfold MI. cbn. split; [eapply same_core_INVS; [|exact Hi2]; auto with sc|].
       change (len (mark_cdev l2)) with (len l2). destruct (N.eqb_spec c 115); [specialize (H8 e)|]; lia.
     + left. unfold apos in *. cbn. destruct (c =? 115); lia.
 Qed.
@@ -485,16 +520,16 @@ Proof.
   assert (Hs2 : same_core (m_l st) l2) by (unfold l2; destruct isq; [eapply same_core_trans; [exact Hsa|auto with sc]|exact Hsa]).
   assert (Hl2 : len l2 = len (m_l st)) by (apply same_core_len; exact Hs2).
   assert (Hp2 : next <= p2 /\ p2 <= len (m_l st)) by (unfold p2; destruct isq; lia).
-  assert (Hi2 : INV text l2) by (eapply same_core_INV; eauto).
+  assert (Hi2 : INVS l2) by (eapply same_core_INVS; eauto).
   destruct (containsURL (l_tag l2) attr).
   - destruct (emit_text_spec (mset_lp l2 p2 st) l2 Hi2) as (l3 & He3 & Hi3 & Hb3 & Hl3 & Hc3 & Hs3); [cbn; lia|].
     rewrite He3, bind_ok. cbn in Hb3, Hl3.
-    set (l4 := set_ctx _ l3). assert (Hi4 : INV text l4) by (eapply same_core_INV; [|exact Hi3]; repeat split).
+    set (l4 := set_ctx _ l3). assert (Hi4 : INVS l4) by (eapply same_core_INVS; [|exact Hi3]; repeat split).
     destruct (emit0_spec gen_tokenStartURL l4 Hi4) as (l5 & H5 & Hi5 & Hb5 & Hl5 & Hc5 & Hs5). rewrite H5. simpl.
     destruct Hs2 as (_ & Hb2 & _). cbn in Hb5.
     split; [apply MI_resync; [exact Hi5|lia]|]. left. unfold apos; cbn. lia.
   - simpl. split.
-    + unfold MI. cbn. split; [eapply INV_eq; [| | |exact Hi2]; reflexivity|].
+    + unfold MI. cbn. split; [eapply INVS_eq; [| | |exact Hi2]; reflexivity|].
       change (len (set_ctx _ (set_tidx p2 l2))) with (len l2). lia.
     + left. unfold apos; cbn. destruct Hs2 as (_ & Hb2 & _). lia.
 Qed.
@@ -539,7 +574,7 @@ Proof.
         [apply Hset|exact Hsame].
   - intros st1 (HM1 & Ha1 & Hp1). simpl. pose proof HM1 as (Hi1 & Hp1' & Ht1).
     split.
-    + unfold MI. cbn. split; [eapply INV_eq; [| | |exact Hi1]; reflexivity|].
+    + unfold MI. cbn. split; [eapply INVS_eq; [| | |exact Hi1]; reflexivity|].
       change (len (set_tidx 0 (set_att [] (set_ctx gen_ContextTag (m_l st1))))) with (len (m_l st1)). lia.
     + cbn [fst snd]. destruct (c =? 62).
       * right. split; [exact Ha1|]. split; [exact Hattr|]. reflexivity.
@@ -569,7 +604,7 @@ Lemma sw_move st l' k :
 Proof.
   intros (Hi & Hp & Ht) Hs Hk st' Hl' Hp'. pose proof (same_core_len _ _ Hs) as Hlen.
   destruct Hs as (Hs1 & Hb & Hs3).
-  split; [unfold MI; cbn [fst]; rewrite Hl', Hp'; split; [eapply INV_eq; [exact Hs1|apply Hb|exact Hs3|exact Hi]|lia]|].
+  split; [unfold MI; cbn [fst]; rewrite Hl', Hp'; split; [eapply INVS_eq; [exact Hs1|apply Hb|exact Hs3|exact Hi]|lia]|].
   cbn [fst snd]. unfold apos. rewrite Hl', Hp'. lia.
 Qed.
 
@@ -678,7 +713,7 @@ Proof.
   assert (Hmv : forall l' p' st', same_core (m_l st) l' -> m_p st < p' -> p' <= len (m_l st) ->
                  m_l st' = l' -> m_p st' = p' -> MI st' /\ apos st < apos st').
   { intros l' p' st' Hs H1 H2 Hl' Hp2. pose proof (same_core_len _ _ Hs) as Hlen. destruct Hs as (Hs1 & Hb & Hs3).
-    split; [unfold MI; rewrite Hl', Hp2; split; [eapply INV_eq; [exact Hs1|apply Hb|exact Hs3|exact Hi]|lia]|].
+    split; [unfold MI; rewrite Hl', Hp2; split; [eapply INVS_eq; [exact Hs1|apply Hb|exact Hs3|exact Hi]|lia]|].
     unfold apos. rewrite Hl', Hp2. lia. }
   destruct (c =? 10).
   2:{ simpl. apply (Hmv (if isStartChar c then addcol 1 (m_l st) else m_l st) (m_p st + 1));
@@ -728,7 +763,7 @@ Proof.
                    m_l s' = l' -> m_p s' = p' -> bodypost st (Again s')).
   { intros l' p' s' Hs H1 H2 Hl' Hp2. pose proof (same_core_len _ _ Hs) as Hlen. destruct Hs as (Hs1 & Hb & Hs3).
     assert (HMs : MI s') by
-      (unfold MI; rewrite Hl', Hp2; split; [eapply INV_eq; [exact Hs1|apply Hb|exact Hs3|exact Hi]|lia]).
+      (unfold MI; rewrite Hl', Hp2; split; [eapply INVS_eq; [exact Hs1|apply Hb|exact Hs3|exact Hi]|lia]).
     split; [exact HMs|]. apply mu_decr; [exact HMs|]. unfold apos. rewrite Hl', Hp2. lia. }
   destruct ((l_ctx (m_l st) =? gen_ContextMarkdown) && (c =? 92)).
   { (* Markdown backslash *)
@@ -748,15 +783,15 @@ Proof.
   intros d Hd.
   assert (Hdelim : forall (f : lexer -> res lexer) (k : lexer -> res (step mst)),
             d <> None ->
-            (forall l1, INV text l1 -> 2 <= len l1 -> safe (f l1) (prog text l1) (ext text l1)) ->
-            (forall l1 l2, l_tidx l1 = 0 -> l_base l1 = apos st -> prog text l1 l2 -> safe (k l2) (bodypost st) (INV text)) ->
+            (forall l1, INVS l1 -> 2 <= len l1 -> safe (f l1) (progS l1) (ext text l1)) ->
+            (forall l1 l2, l_tidx l1 = 0 -> l_base l1 = apos st -> progS l1 l2 -> safe (k l2) (bodypost st) (INV text)) ->
             safe (let* l1 := flush_text st1 in let* l2 := f l1 in k l2) (bodypost st) (INV text)).
   { intros f k Hdn Hf Hk. destruct d as [x|]; [|congruence].
     destruct (flush_text_spec st1 HM1) as (l1 & H1 & Hi1 & Hb1 & Hl1' & Hc1 & Hs1). rewrite H1, bind_ok.
     eapply safe_bind.
     - eapply safe_mono; [apply Hf; [exact Hi1|rewrite Hl1', Hl1, Hp1; lia]|intros a Ha; exact Ha|intros l' [Hl' _]; exact Hl'].
     - intros l2 Hp2. apply (Hk l1 l2); [apply Hb1|rewrite <- Ha1; apply Hb1|exact Hp2]. }
-  assert (Hres : forall l1 l2, l_tidx l1 = 0 -> l_base l1 = apos st -> prog text l1 l2 -> bodypost st (Again (resync l2 st1))).
+  assert (Hres : forall l1 l2, l_tidx l1 = 0 -> l_base l1 = apos st -> progS l1 l2 -> bodypost st (Again (resync l2 st1))).
   { intros l1 l2 Ht1 Hb1 [Hi2 Hp2]. assert (HMr : MI (resync l2 st1)) by (apply MI_resync; [exact Hi2|lia]).
     split; [exact HMr|]. apply mu_decr; [exact HMr|]. unfold apos at 2. cbn. lia. }
   destruct (oeq d 123 && negb noshow) eqn:E1.
@@ -772,7 +807,7 @@ Proof.
     { unfold andm. destruct (N.ltb_spec 2 (len l1)); [|simpl; discriminate].
       destruct (idx_ok l1 2 H) as (x2 & Hx2 & _). unfold idx_is. rewrite Hx2. simpl. intros _. lia. }
     intros three H3.
-    eapply safe_bind with (Q' := prog text l1).
+    eapply safe_bind with (Q' := progS l1).
     - eapply safe_mono with (E := ext text l1); [|intros a Ha; exact Ha|intros l' [Hl' _]; exact Hl'].
       destruct three; [apply lex_statements_safe; [exact Hi1|apply H3; reflexivity]|apply lex_statement_safe; assumption].
     - intros l2 Hp2. pose proof (Hres l1 l2 (proj2 Hb1) ltac:(rewrite <- Ha1; apply Hb1) Hp2) as Hr.
@@ -782,7 +817,7 @@ Proof.
       destruct Hr as [HMr Hmr]. destruct Hp2 as [Hi2 Hp2].
       pose proof (same_core_len _ _ Hs3) as Hl3. destruct Hs3 as (Hs31 & Hb3 & Hs33).
       assert (HMq : MI (mset_lp l3 q (resync l2 st1))).
-      { unfold MI. cbn. split; [eapply INV_eq; [exact Hs31|apply Hb3|exact Hs33|exact Hi2]|lia]. }
+      { unfold MI. cbn. split; [eapply INVS_eq; [exact Hs31|apply Hb3|exact Hs33|exact Hi2]|lia]. }
       split; [exact HMq|]. apply mu_decr; [exact HMq|]. unfold apos at 2. cbn. lia. }
   destruct (oeq d 35) eqn:E3.
   { apply (Hdelim lex_comment (fun l2 => Ok (Again (resync l2 st1)))).
@@ -791,7 +826,7 @@ Proof.
     - intros l1 l2 H1 H2 H3. simpl. apply (Hres l1); assumption. }
   sstep; [sstep; [sstep|]|].
   all: try match goal with |- safe (if ?b then _ else _) _ _ => destruct b end.
-  all: try (simpl; destruct (0 <? m_p st); [eapply INV_eq; [| | |exact Hi]; reflexivity|exact Hi]; fail).
+  all: try (simpl; destruct (0 <? m_p st); [eapply INV_eq; [| | |exact (proj1 Hi)]; reflexivity|exact (proj1 Hi)]; fail).
   all: rewrite ?bind_ok; cbn iota.
   all: (eapply safe_bind;
     [eapply safe_mono; [apply (ctx_switch_safe fc isHTML st1 c); [exact HM1|rewrite Hl1, Hp1; exact Hc]|intros a Haa; exact Haa|intros ? []]|]).
@@ -804,25 +839,26 @@ Proof.
        intros [s'|s']; [|intros []]; intros [HMs Has]; split; [exact HMs|apply mu_decr; [exact HMs|lia]].
 Qed.
 
-Lemma INV_start fmt : INV text (scan_start fmt text).
+Lemma INV_start fmt : INVS (scan_start fmt text).
 Proof.
-  split; [exists []; split; reflexivity|constructor].
+  split; [|exists 0; reflexivity]. split; [exists []; split; reflexivity|]. split; [constructor|].
+  exists 0, false. split; [reflexivity|reflexivity].
 Qed.
 
-Lemma shebang_safe l : INV text l -> l_tidx l = 0 -> safe (shebang l) (fun l' => INV text l' /\ l_tidx l' = 0) nofail.
+Lemma shebang_safe l : INVS l -> l_tidx l = 0 -> safe (shebang l) (fun l' => INVS l' /\ l_tidx l' = 0) nofail.
 Proof.
   intros Hi Ht. unfold shebang. destruct (N.ltb_spec 1 (len l)); [|simpl; auto].
   sstep. sstep; [sstep|simpl; auto]. destruct (x =? 33); [|simpl; auto].
   set (t := match index_byte (l_src l) 10 with Some t => t | None => len l - 1 end).
   assert (Htl : t + 1 <= len l).
   { unfold t. destruct (index_byte (l_src l) 10) eqn:E; [apply index_byte_bound in E; unfold len; lia|lia]. }
-  destruct (emit_spec text gen_tokenShebangLine (t + 1) l Hi Htl) as (l1 & H1 & Hi1 & Hb1 & _).
-  rewrite H1, bind_ok. simpl.
-  split; [eapply INV_eq; [| | |exact Hi1]; destruct (index_byte (l_src l) 10); reflexivity|].
+  destruct (emit_at_specS (l_line l) (l_col l) (l_cdev l) (l_ldev l) gen_tokenShebangLine (t + 1) l Hi Htl (or_intror eq_refl)) as (l1 & H1 & Hi1 & Hb1 & _).
+  unfold emit. rewrite H1, bind_ok. simpl.
+  split; [eapply INVS_eq; [| | |exact Hi1]; destruct (index_byte (l_src l) 10); reflexivity|].
   destruct (index_byte (l_src l) 10); cbn; lia.
 Qed.
 
-Theorem scan_run_safe fmt : safe (scan_run U noshow fmt text) (INV text) (INV text).
+Theorem scan_run_safe fmt : safe (scan_run U noshow fmt text) (fun l => INVS l /\ len l = 0) (INV text).
 Proof.
   unfold scan_run.
   eapply safe_bind; [eapply safe_mono; [apply shebang_safe; [apply INV_start|reflexivity]|intros a Ha; exact Ha|intros ? []]|].
@@ -833,7 +869,7 @@ Proof.
   intros [l2 p0] [Hs2 Hp0]. simpl in Hs2, Hp0.
   pose proof (same_core_len _ _ Hs2) as Hl2.
   assert (HM0 : MI (mkM l2 p0 (l_line l1) (l_col l1) (l_cdev l1) (l_ldev l1) 0 false 0 true)).
-  { unfold MI. cbn. split; [eapply same_core_INV; eauto|]. destruct Hs2 as (_ & Hb & _). lia. }
+  { unfold MI. cbn. split; [eapply same_core_INVS; eauto|]. destruct Hs2 as (_ & Hb & _). lia. }
   eapply safe_bind.
   - apply (safe_loop _ MI (fun st => N.to_nat (mu st)) (fun st => MI st /\ len (m_l st) <= m_p st)) with (E := INV text).
     + intros st HM. eapply safe_mono; [apply scan_body_safe; exact HM| |auto].
@@ -842,12 +878,12 @@ Proof.
     + unfold mu, scan_fuel, apos. cbn [m_l m_p]. destruct (is_attr (l_ctx l2)); rewrite nlen_eq; lia.
   - intros st [HM Hend]. pose proof HM as (Hi & Hp & Ht).
     assert (Hpe : m_p st = len (m_l st)) by lia.
-    eapply safe_bind with (Q' := INV text).
-    { destruct (0 <? len (m_l st)); [|simpl; exact Hi].
-      destruct (emit_text_spec st (m_l st) Hi Hp) as (l3 & H3 & Hi3 & _). rewrite H3. simpl. exact Hi3. }
-    intros l3 Hi3. eapply safe_bind with (Q' := INV text).
-    { destruct ((l_ctx l3 =? gen_ContextMarkdown) && m_url st); [|simpl; exact Hi3].
-      destruct (emit0_spec gen_tokenEndURL l3 Hi3) as (l4 & H4 & Hi4 & _). rewrite H4. simpl. exact Hi4. }
-    intros l4 Hi4. destruct (emit0_spec gen_tokenEOF l4 Hi4) as (l5 & H5 & Hi5 & _). rewrite H5. simpl. exact Hi5.
+    eapply safe_bind with (Q' := fun l3 => INVS l3 /\ len l3 = 0).
+    { destruct (N.ltb_spec 0 (len (m_l st))); [|simpl; split; [exact Hi|lia]].
+      destruct (emit_text_spec st (m_l st) Hi Hp) as (l3 & H3 & Hi3 & _ & Hl3 & _). rewrite H3. simpl. split; [exact Hi3|lia]. }
+    intros l3 [Hi3 Hl3]. eapply safe_bind with (Q' := fun l4 => INVS l4 /\ len l4 = 0).
+    { destruct ((l_ctx l3 =? gen_ContextMarkdown) && m_url st); [|simpl; auto].
+      destruct (emit0_spec gen_tokenEndURL l3 Hi3) as (l4 & H4 & Hi4 & _ & Hl4 & _). rewrite H4. simpl. split; [exact Hi4|lia]. }
+    intros l4 [Hi4 Hl4]. destruct (emit0_spec gen_tokenEOF l4 Hi4) as (l5 & H5 & Hi5 & _ & Hl5 & _). rewrite H5. simpl. split; [exact Hi5|lia].
 Qed.
 End ScanProofs.
